@@ -36,6 +36,8 @@ impl SO3StateSpace {
     /// # Errors
     ///
     /// * `StateSpaceError::InvalidAngularDistance` if the provided `max_angle` is negative.
+    /// * `StateSpaceError::InvalidCenterRotation` if the provided centre is a zero-magnitude quaternion
+    ///   (any other centre is stored normalised).
     ///
     /// # Examples
     ///
@@ -56,10 +58,17 @@ impl SO3StateSpace {
     /// ```
     pub fn new(bounds_option: Option<(SO3State, f64)>) -> Result<Self, StateSpaceError> {
         let bounds = match bounds_option {
-            Some((center_rotation, max_angle)) => {
+            Some((mut center_rotation, max_angle)) => {
                 if max_angle < 0.0 {
                     return Err(StateSpaceError::InvalidAngularDistance { lower: max_angle });
                 }
+
+                // Distances to the centre are computed from the quaternion dot product: a centre that is
+                // not of unit length would put every rotation outside the cone, and sampling would never
+                // return.
+                let center_rotation = center_rotation
+                    .normalise()
+                    .map_err(|_| StateSpaceError::InvalidCenterRotation)?;
 
                 let clamped_max_angle = max_angle.min(PI);
 
